@@ -111,13 +111,28 @@ Definition public_ufunc_ok (p : string * string) : bool :=
   end.
 
 (* ---- Tensor.__array_ufunc__ ---- *)
-Inductive dispatch := DTensor (c : string) | DArray | DRaise | DNotImplemented.
+(* registry first; otherwise the first fallback table (in source order) that lists the ufunc decides the caster applied to every operand:
+   `asarray` unwraps any tensor, `_as_constant_array` raises for a non-constant one (if the source says so), and that exception is
+   re-raised as ValueError (if the source says so); no table: NotImplemented. *)
+Inductive dispatch := DTensor (c : string) | DArray | DRaise | DNotImplemented | DUnknown.
+Definition table_of (t : string) : list string :=
+  if String.eqb t "_REGISTERED_BOOL_ONLY_UFUNC" then bool_only_set
+  else if String.eqb t "_REGISTERED_CONST_ONLY_UFUNC" then const_only_set else [].
+Fixpoint fallback (u : string) (nonconstant_operand : bool) (cs : list (string * string)) : dispatch :=
+  match cs with
+  | [] => if au_else_notimplemented then DNotImplemented else DUnknown
+  | (t, caster) :: cs' =>
+      if mem u (table_of t) then
+        if String.eqb caster "asarray" then DArray
+        else if String.eqb caster "_as_constant_array" then
+          (if nonconstant_operand then (if const_caster_raises_on_nonconstant && au_constonly_becomes_valueerror then DRaise else DUnknown) else DArray)
+        else DUnknown
+      else fallback u nonconstant_operand cs'
+  end.
 Definition array_ufunc (u : string) (nonconstant_operand : bool) : dispatch :=
   match assoc u np_ufunc_override with
   | Some (_, c) => DTensor c
-  | None => if mem u bool_only_set then DArray
-            else if mem u const_only_set then (if nonconstant_operand then DRaise else DArray)
-            else DNotImplemented
+  | None => fallback u nonconstant_operand au_fallback_casters
   end.
 Inductive fdispatch := FTensor (c : option string) | FArray | FNotImplemented.
 Definition array_function (f : string) : fdispatch :=
@@ -132,5 +147,8 @@ Definition rounding_modulo_family : list string :=
 Definition comparison_family : list string :=
   ["equal"; "not_equal"; "less"; "less_equal"; "greater"; "greater_equal"; "logical_and"; "logical_or"; "logical_not"; "logical_xor";
    "isnan"; "isinf"; "isfinite"; "signbit"].
+
+Definition shortcut_types_ok (p : string * list string) : bool :=
+  forallb (fun k => mem k ["Number"; "np.ndarray"]) (snd p).
 
 Fixpoint nodupb (l : list string) : bool := match l with [] => true | x :: l' => negb (mem x l') && nodupb l' end.
